@@ -17,6 +17,25 @@ CHECKS = {
         "rules <= 4 items; names restricted to the literal alphabet the statement names.",
         ref="DESIGN.md 4/C01",
     ),
+    "C02": dict(
+        cat="exploration",
+        technique="property-based testing (Hypothesis): sandwich listings A X^r B with r around both bounds vs. reference matcher, plus metamorphic unrolling (X times n == X written n times) and spelling relations",
+        text="Generated rules A, X<times>, B over six kinds of X (item, item+operands, $and, $or, $not, $and_any_order), integer and {min,max} bounds 0..6, "
+        "both YAML spellings, with and without the full-match flags, on listings whose repetition count sits on/next to each bound; verdict and every reported span "
+        "are compared with the reference matcher, and unrolled / re-spelled rule pairs must return identical all-matches lists (no reference involved).",
+        note="Trusted: reference matcher, Hypothesis. min-only/max-only spellings and times on capture definitions are outside the statement and not asserted; "
+        "operand-level times is judged by the metamorphic relation only.",
+        ref="DESIGN.md 4/C02",
+    ),
+    "C03": dict(
+        cat="exploration",
+        technique="property-based testing (Hypothesis): nested $or/$and/$and_any_order rules built from listing windows with decoys, listing mutators, reference matcher oracle",
+        text="Nestings of the three operators (instruction level, operand level, $or inside a $deref field, prefix-alternative $or, any-order groups with equal children) "
+        "built to match a window of a generated listing, then perturbed by one listing mutator; JASM's verdict (bool and all-matches) and every reported span "
+        "are compared with the reference matcher under drawn full-match flags.",
+        note="Trusted: reference matcher, operand table, Hypothesis. Depth <= 3 (quick) / 4 (thorough), any-order groups <= 4 children, no times/$not/captures here.",
+        ref="DESIGN.md 4/C03",
+    ),
 }
 
 NOT_APPLICABLE = []
